@@ -50,9 +50,37 @@ def _wrap(h, NVT=NVT, sched="iter"):
     return run
 
 
+def h_atc_reciprocal(env, nspin=1, nk=2, nlm=1, nq=2):
+    """atc_reciprocal_convolution (convolutions.c; called by ciderpress/gpaw/atom_utils.py) on symbolic buffers:
+    out[s,k,lm,q2] = sum_q1 C_k[q2,q1] in[s,k,lm,q1] with C_k built from a table the routine fills first.  Only the footprint obligations of the wrapper are decided here (no value identity: the table involves pow(x, 1.5))"""
+    import numpy as np
+    CFILE = "ciderpress/lib/mod_cider/convolutions.c"
+    inp = env.arr("inp", (nspin, nk, nlm, nq), lo="-2", hi="2")
+    kk = env.arr("k", (nk,), "nonneg", hi="4")
+    al = env.arr("alpha", (nq,), "pos", lo="1/8", hi="8")
+    an = env.arr("norm", (nq,), "pos", lo="1/8", hi="8")
+    out = env.zeros((nspin, nk, nlm, nq))
+    if env.sym:
+        from ..llsym import bridge
+        from ..llsym.interp import Obj, Ptr
+        it = bridge.new_interp(CFILE)
+        mk = lambda nm, a: Ptr(Obj(nm, bridge._Flat(a), 8), 0)
+        ok, _ = env.attempt("returns", lambda: it.call("atc_reciprocal_convolution", [mk("in", inp.copy()), mk("out", out), mk("k", kk.copy()), mk("alphas", al.copy()), mk("norms", an.copy()), nspin, nk, nlm, nq]))
+        if not ok:
+            return
+    else:
+        import ctypes
+        from .. import replaylibs
+        lib = np.ctypeslib.load_library("libmcider", replaylibs.ensure())
+        pp = lambda a: a.ctypes.data_as(ctypes.c_void_p)
+        arrs = [np.ascontiguousarray(a, dtype=float) for a in (inp, kk, al, an)]
+        lib.atc_reciprocal_convolution(pp(arrs[0]), pp(out), pp(arrs[1]), pp(arrs[2]), pp(arrs[3]), ctypes.c_int(nspin), ctypes.c_int(nk), ctypes.c_int(nlm), ctypes.c_int(nq))
+
+
 def _make():
     from . import c02, c05, c11, c20, c18, c05_sdmx
     return {
+        "atc_reciprocal_convolution": (_wrap(h_atc_reciprocal), {}, "dft"),
         "sdmx_ylm_loop": (_wrap(c05_sdmx.h_ylm_loop), {}, "dft"),
         "sdmx_ao_to_bas_l1": (_wrap(c05_sdmx.h_l1), dict(ng=3), "dft"),
         "sdmx_ao_to_bas_grid": (_wrap(c05_sdmx.h_grid), dict(ng=3), "dft"),
